@@ -249,7 +249,7 @@ class Oracle:
     NONRAISING = {
         "trace", "_trace", "log", "notrace", "isinstance", "len", "hasattr", "type",
         "callable", "id", "repr", "bool", "is_set", "set", "clear", "partial", "cast", "getattr",
-        "issubclass", "tuple", "list", "dict", "frozenset", "object", "super",
+        "issubclass", "tuple", "list", "dict", "frozenset", "object", "super", "acquire", "release",
     }
 
     def __init__(self, repo: Repo, fi: FuncInfo, nonraising: Iterable[str] = (), precise: bool = False,
